@@ -40,6 +40,7 @@ structure Graph where
   consumes : Name → List Val        -- declared inputs expanded to value level (`as_vref (_priors alg)`)
   feedbackTo : Val → Option Name    -- `ae.feedbacks`: fed-back value ↦ consuming algorithm
   level : Name → Nat                -- `node.get('level')`, the sort key of the queue
+  rank : Name → Nat := fun n => n   -- position of the node's tag in string order (`sorted(task_names)`)
 
 /-- the values of `jobinfo.State` a node's `status` takes -/
 inductive Status where
@@ -106,11 +107,19 @@ def prune (s : St) : St := { s with que := s.que.filter (fun n => (s.node n).liv
 def wanted (g : Graph) (all : List Target) (targets : List Target) (n : Name) : List Target :=
   if g.kind n = .analysis then [ALL] else if ALL ∈ targets then all else targets
 
+/-- the run id of a located node: work that is still pending is never moved back to an older
+    run id (a request for a fresh id wins); otherwise the id of the request -/
+def mergeRid (nd : Node) (rid : Option Nat) : Option Nat :=
+  if nd.todo.isEmpty then rid
+  else match rid, nd.runid with
+    | some a, some b => some (max a b)
+    | _, _ => none
+
 /-- the body of `organize`'s loop for one located node (status: running stays running,
     anything else becomes waiting) -/
 def organizeNode (g : Graph) (all targets : List Target) (rid : Option Nat) (n : Name) (nd : Node) :
     Node :=
-  { nd with runid := rid, status := if nd.running then .running else .waiting,
+  { nd with runid := mergeRid nd rid, status := if nd.running then .running else .waiting,
             todo := updU nd.todo (wanted g all targets n) }
 
 def addQ (q : List Name) (n : Name) : List Name := if n ∈ q then q else q ++ [n]
@@ -238,6 +247,19 @@ def dependents (g : Graph) (x : Name) (news : List Val) : List Name :=
 def fedBack (g : Graph) (news : List Val) : List Name :=
   news.filterMap g.feedbackTo
 
+/-- insert by tag order, once -/
+def insRank (g : Graph) (n : Name) : List Name → List Name
+  | [] => [n]
+  | m :: ms => if m = n then m :: ms else if g.rank n < g.rank m then n :: m :: ms
+               else m :: insRank g n ms
+
+/-- `sorted(task_names)` of a set of tags -/
+def sortNames (g : Graph) (l : List Name) : List Name := l.foldl (fun acc n => insRank g n acc) []
+
+/-- the `task_names` `schedule.update` hands to `organize`, in the order it hands them over -/
+def updNames (g : Graph) (x : Name) (news : List Val) : List Name :=
+  sortNames g (fedBack g news ++ dependents g x news)
+
 /-- `schedule.update(values, node, rid)`; `news` = the values reported with `isnew = True`,
     `any` = the report carried at least one value (otherwise only an error is logged) -/
 def update (g : Graph) (s : St) (x : Name) (t : Target) (rid : Nat) (news : List Val)
@@ -247,7 +269,7 @@ def update (g : Graph) (s : St) (x : Name) (t : Target) (rid : Nat) (news : List
     let fb := fedBack g news
     let rid' := if fb.isEmpty then some rid else none
     if news.isEmpty then organize g s [] rid' []
-    else organize g s (fb ++ dependents g x news) rid' [t]
+    else organize g s (updNames g x news) rid' [t]
 
 inductive ReplyResult where
   | applied | lost
